@@ -50,6 +50,16 @@ void use_dl()
     (void)copy.get();
 }
 
+// the loader's mode bits as this platform defines them (R19.2 evaluates the second argument of dlopen against them)
+const int rtld_lazy = RTLD_LAZY;
+const int rtld_now = RTLD_NOW;
+const int rtld_noload = RTLD_NOLOAD;
+const int rtld_nodelete = RTLD_NODELETE;
+int rtld_bits()
+{
+    return rtld_lazy + rtld_now + rtld_noload + rtld_nodelete;
+}
+
 void use_env()
 {
     (void)nitro::env::get("HOME");
